@@ -114,13 +114,20 @@ def eff_deps(T, t):
 
 # ---------------------------------------------------------------------------------------------- one-shot scenario
 
-def oneshot(rng, T, roots, fail=(), gated=True, tag='os', cap=None, hang_s=None):
+def oneshot(rng, T, roots, fail=(), gated=True, tag='os', cap=None, hang_s=None, with_inputs=True, second_run=True, pre_args=()):
     """Runs `zinoma <roots>` once. Returns (obs, verdicts): verdicts = {property_id: [text, ...]} for violated properties."""
     d = vf.scratch_dir(tag)
     spec = {}
+    if not isinstance(fail, dict):
+        fail = {t: 1 for t in fail}
     for t, s in T.items():
         spec[t] = {'kind': s['kind'], 'deps': s['deps'], 'gated': gated and s['kind'] == 'build',
-                   'status': 1 if t in fail else 0}
+                   'status': fail.get(t, 0)}
+        if s['kind'] == 'build' and with_inputs:
+            os.makedirs(os.path.join(d, 'in', t), exist_ok=True)
+            with open(os.path.join(d, 'in', t, 'src.txt'), 'w') as f:
+                f.write('input of %s\n' % t)
+            spec[t]['input'] = ['paths: [in/%s]' % t]
     proj = blackbox.Project(d, spec)
     # recorded state of targets outside the closure must never be touched (C08): plant a file for each
     clo0 = closure(T, roots)
@@ -135,7 +142,7 @@ def oneshot(rng, T, roots, fail=(), gated=True, tag='os', cap=None, hang_s=None)
     env = {}
     if cap:
         env['ZINOMA_VERIF_CAP'] = str(cap)
-    run = blackbox.Run(proj, list(roots), env=env)
+    run = blackbox.Run(proj, list(pre_args) + list(roots), env=env)
     V = {}
 
     def bad(prop, text):
@@ -217,6 +224,32 @@ def oneshot(rng, T, roots, fail=(), gated=True, tag='os', cap=None, hang_s=None)
                         bad('C04', 'all builds succeeded but exit status is %s' % run.exit_code)
                     if missing:
                         bad('C08', 'exit 0 but needed targets never ran: %s' % missing)
+        # second invocation on the untouched tree: what completed is skipped (C03), what failed or was killed runs again (C05, C02)
+        second = None
+        if second_run and with_inputs and outcome == 'exited' and not keepalive:
+            n1 = len(tr)
+            run2 = blackbox.Run(proj, list(roots), env=env)
+            try:
+                if gated:
+                    o2 = blackbox.drive_to_end(run2, rng, fail={}, hang_s=hang_s)
+                else:
+                    # the scripts carry their first-run status: a failing one fails again, that is fine here
+                    o2 = 'exited' if run2.wait_exit(hang_s or blackbox.HANG_S) else 'hung'
+                tr2 = run2.trace()[n1:]
+                started2 = {t for k, t, _ in tr2 if k == 'start'}
+                ok1 = {t for t in pos_end_ok}
+                for t in sorted(started2 & ok1):
+                    if T[t]['kind'] == 'build':
+                        bad('C03', '%s completed in the first run, nothing was touched, yet its script ran again in the second run' % t)
+                for t in sorted(failed):
+                    reachable2 = not (tdeps(T, t) & failed) or gated
+                    if t in clo and t not in started2 and not (tdeps(T, t) & (failed - started2)):
+                        bad('C05', '%s did not complete in the first run (status %s) but the second run did not run its script again'
+                            % (t, fail.get(t)))
+                        bad('C02', '%s was skipped in the second run although it never ran to successful completion' % t)
+                second = {'outcome': o2, 'exit_code': run2.exit_code, 'trace': tr2}
+            finally:
+                run2.kill()
         # shutdown (C10/C11): stop it if still alive, then nothing of ours may be left
         t_sig = None
         if run.poll() is None:
@@ -233,9 +266,10 @@ def oneshot(rng, T, roots, fail=(), gated=True, tag='os', cap=None, hang_s=None)
                 left = run.leftover()
             if left:
                 bad('C10', 'processes left behind after exit: %s' % left)
-        obs = {'outcome': outcome, 'exit_code': run.exit_code, 'trace': tr, 'roots': list(roots), 'fail': sorted(fail),
+        obs = {'outcome': outcome, 'exit_code': run.exit_code, 'trace': tr, 'roots': list(roots), 'fail': {t: fail[t] for t in sorted(fail)},
                'targets': T, 'gated': gated, 'stderr_tail': err[-600:], 'keepalive_expected': keepalive,
-               'exit_latency_after_signal': (run.exit_time - t_sig) if (t_sig and run.exit_time) else None}
+               'exit_latency_after_signal': (run.exit_time - t_sig) if (t_sig and run.exit_time) else None,
+               'second_run': second, 'pre_args': list(pre_args)}
         return obs, V
     finally:
         run.kill()
